@@ -48,7 +48,11 @@ def setup(ctx, index, ordinal):
       from pyvc.values import ExcVal, SymExc
       raise PyRaise(ExcVal(None, (), sym=SymExc('load')))
     return 'LOADED'
-  unpickler_base = ModelClass('pickle.Unpickler', methods={'load': load})
+  def stock_find_class(ip, selfobj, module, name):
+    # the unrestricted lookup of pickle.Unpickler: resolves any global (with the py2 -> py3 renames)
+    log.add('pickle.Unpickler.find_class(unrestricted)', (module, name))
+    return ('global', module, name)
+  unpickler_base = ModelClass('pickle.Unpickler', methods={'load': load, 'find_class': stock_find_class})
   pickle_ns = Namespace('pickle', {'UnpicklingError': ExcClass('pickle.UnpicklingError'),
                                    'Unpickler': unpickler_base,
                                    'loads': External('pickle.loads(unrestricted)', log, ret=lambda ip, a, k: 'UNSAFE'),
@@ -57,7 +61,13 @@ def setup(ctx, index, ordinal):
            'StringIO': Builtin('StringIO', lambda ip, a, k: ('StringIO', a[0]))}}
   ip = Interp(ctx, index, bindings=b)
   ip.class_ordinals[(U, 'SafeUnpickler')] = ordinal
-  ip.ext['__import__'] = lambda ip2, name, *a: log.add('__import__', (name,))
+  def imp(ip2, name, *a):
+    log.add('__import__', (name,))
+    # importing may fail (the allow-listed modules are Python 2 names that do not exist on Python 3)
+    if ip2.ctx.choose(2, '__import__ fails') == 1:
+      from pyvc.values import ExcVal
+      raise PyRaise(ExcVal('ImportError', (name,)))
+  ip.ext['__import__'] = imp
   ip.ext['getattr'] = lambda ip2, o, name, *a: (log.add('getattr', (o, name)), ('global', o, name))[1]
   ip.ext['str_format'] = lambda ip2, fmt, args: 'msg'
   ip.ext[('new', U + ':SafeUnpickler')] = new_unpickler
@@ -84,7 +94,10 @@ def u_find_class(ordinal):
     mod_ok = z3.Or([module == ip.atom(m) for m in sorted(set(m for m, _ in ALLOW))])
     pre = 'C13/find_class#%d' % ordinal
     ctx.check(pre + '/only_allowlisted', z3.Implies(z3.BoolVal(raised is None), allowed))
-    ctx.check(pre + '/allowlist_pinned', z3.Implies(allowed, z3.BoolVal(raised is None)))
+    import_failed = raised is not None and raised.cls_name == 'ImportError'
+    # (that the allow-listed globals do load is informative: C13 is about everything else not loading)
+    ctx.check('aux/find_class#%d/allowlist_pinned' % ordinal, z3.Implies(allowed, z3.BoolVal(raised is None or import_failed)))
+    ctx.check(pre + '/never_delegates_to_the_unrestricted_lookup', z3.BoolVal(not [e for e in log.events if 'unrestricted' in e[0]]))
     imports = log.of('__import__')
     ctx.check(pre + '/no_import_off_list', z3.Implies(z3.Not(mod_ok), z3.BoolVal(len(imports) == 0)))
     ctx.check(pre + '/imports_only_the_named_module',
@@ -92,7 +105,7 @@ def u_find_class(ordinal):
     ctx.check(pre + '/no_lookup_off_list', z3.Implies(z3.Not(allowed), z3.BoolVal(len(log.of('getattr')) == 0)))
     if raised is not None:
       ctx.cover('find_class/rejects')
-      ctx.check(pre + '/rejects_with_UnpicklingError', z3.BoolVal(raised.cls_name == 'pickle.UnpicklingError'))
+      ctx.check(pre + '/rejects_with_UnpicklingError', z3.BoolVal(raised.cls_name == 'pickle.UnpicklingError' or import_failed))
     else:
       ctx.cover('find_class/accepts')
       ctx.check(pre + '/returns_the_named_global',
